@@ -17,7 +17,7 @@
    output = L [per op: L []  (arrive) | L [L [A 4; B dgram]] (send: what the peer receives)
                      | L [L [A 0; B pkt]] | L [L [A 1; A errcode]] | L [L [A 2]] | L [L [A 3]] (recv; 3 = nothing queued)
                      | L [L [A 5]] (cancelled, nothing consumed) | L [L [A 6; A 0]] (the socket error, at its position)] *)
-From EN Require Import Lib.Bytes Lib.Sx Frame.Framer Frame.ReadUntil Frame.OneShot IO.Datagram Gen.ParamsC05.
+From EN Require Import Lib.Bytes Lib.Sx Frame.Framer Frame.ReadUntil Frame.OneShot IO.DgramEndpoint Gen.ParamsC05.
 
 Definition err_code (e : err) : Z :=
   match e with ELimit => 0 | EDecode => 1 | EConvert => 2 | EMissing => 3 | EExtra => 4 end%Z.
